@@ -155,10 +155,8 @@ META = {
                     "pytest's own runner is replaced by direct calls of the real hooks (pytest_configure, snapshot_check fixture generator, pytest_sessionfinish) with stub config/request/session objects"],
 }
 
-W.concrete = True
-try:
-    assert create_case("==", "assert", ["[n0, Weird(1)]"], {"n0": 1})
-    assert create_case("[]", "nested", ["n0", "n1"], {"n0": 1, "n1": 2})
-    assert create_case("<=", "module", ["n0", "n1"], {"n0": 1, "n1": 2})
-finally:
-    W.concrete = False
+world.prewarm(
+    lambda: create_case("==", "assert", ["[n0, Weird(1)]"], {"n0": 1}),
+    lambda: create_case("[]", "nested", ["n0", "n1"], {"n0": 1, "n1": 2}),
+    lambda: create_case("<=", "module", ["n0", "n1"], {"n0": 1, "n1": 2}),
+)
